@@ -261,14 +261,12 @@ def sequential_step(server, who, fr, slugs=False):
     return conn.sent[0] if conn.sent else None
 
 
-def concurrent_run(spec, choices):
-    srv, idx = store.fresh_server()
-    H.CLOCK.now = NOW
-    eng = srv.engine
-    if isinstance(choices, dict):
-        s = sched.Scheduler(choices["choices"], TRACE_FILES, policy=choices["policy"])
-    else:
-        s = sched.Scheduler(choices, TRACE_FILES)
+def _instrument(eng, s):
+    """Put one engine under the scheduler: its lock becomes a scheduler lock of the same kind and
+    every SQL statement is a switch point."""
+    if getattr(eng, "_verif_sched", None) is s:
+        return
+    eng._verif_sched = s
     if hasattr(eng, "_lock"):
         import threading as _th
         # same kind of lock as the engine made for itself (a plain Lock may be released by anybody)
@@ -277,6 +275,50 @@ def concurrent_run(spec, choices):
     eng._data_store.dispose()
     event.listen(eng._data_store, "before_cursor_execute",
                  lambda conn, cursor, statement, parameters, context, executemany: s.yield_point("sql"))
+
+
+def _bare_server(srv, settings):
+    """A KmipServer as start() leaves it, minus sockets, signal handlers and the policy monitor:
+    the object whose _setup_connection_handler gives every accepted connection its session."""
+    import logging
+    from kmip.services.server import server as server_mod, config as config_mod
+    ks = object.__new__(server_mod.KmipServer)
+    ks._logger = logging.getLogger("kmip.server")
+    ks._session_id = 1
+    ks._is_serving = True
+    ks.config = config_mod.KmipServerConfig()
+    ks.config.settings.update({"enable_tls_client_auth": True, "auth_plugins": settings,
+                               "database_path": srv.db, "policy_path": None})
+    ks.policies = srv.policies
+    ks.live_policies = False
+    ks._engine = srv.engine
+    return ks
+
+
+def _accept(ks, conn, started):
+    """What serve() does with an accepted connection; the session thread is not started (the
+    scheduler runs its message loop) but handed back."""
+    plain = session_mod.KmipSession.start
+    session_mod.KmipSession.start = lambda self: started.append(self)
+    try:
+        n = len(started)
+        ks._setup_connection_handler(conn, ("127.0.0.1", 5696))
+        if len(started) != n + 1:
+            raise core.HarnessError("KmipServer._setup_connection_handler started no session")
+        return started[-1]
+    finally:
+        session_mod.KmipSession.start = plain
+
+
+def concurrent_run(spec, choices):
+    srv, idx = store.fresh_server()
+    H.CLOCK.now = NOW
+    eng = srv.engine
+    if isinstance(choices, dict):
+        s = sched.Scheduler(choices["choices"], TRACE_FILES, policy=choices["policy"])
+    else:
+        s = sched.Scheduler(choices, TRACE_FILES)
+    _instrument(eng, s)
     conns = []
     fns = []
     results = []
@@ -285,13 +327,17 @@ def concurrent_run(spec, choices):
     if spec.get("slugs"):
         slugs_stub().sched = s
         shared_settings = [(n_, dict(c_)) for n_, c_ in SLUGS_SETTINGS]
+    # sessions are made where the server makes them (KmipServer._setup_connection_handler), so
+    # that what the sessions of two connections share is what the server lets them share
+    ks = _bare_server(srv, shared_settings)
+    started = []
     for ci, c in enumerate(spec["clients"]):
         data = b"".join(frame_bytes(fr) for fr in c["frames"])
         # the transport delivers each message in pieces and every recv() is a switch point
         # (the harness owns the transport, so it owns this part of the schedule too)
         conn = SchedConnection(s, data, spec.get("chunks") or [5, 3, 64, 17, 200], H.make_cert((c["who"],), "client"))
-        sess = session_mod.KmipSession(eng, conn, ("127.0.0.1", 5696), name="c10-%d" % ci,
-                                       auth_settings=shared_settings)
+        sess = _accept(ks, conn, started)
+        _instrument(sess._engine, s)
         conns.append(conn)
         res = []
         results.append(res)
@@ -314,6 +360,13 @@ def concurrent_run(spec, choices):
     ok = s.run(fns, timeout=25.0)
     if spec.get("slugs"):
         slugs_stub().sched = None
+    for sess in started:
+        e2 = sess._engine
+        if e2 is not eng and hasattr(e2, "_data_store"):
+            try:
+                e2._data_store.dispose()
+            except Exception:
+                pass
     return srv, s, results, ok
 
 
